@@ -34,6 +34,11 @@ class World:
         self.rt = rt
         self.types = list(types)
         self.cls = {ty: type("Req" + ty, (rt.Request,), {"options": {}}) for ty in types}
+        # request types are looked up by their exact class: the LAST type is declared as a subclass of the FIRST
+        # one's request class (a specialised request) and is nevertheless a type of its own
+        if len(self.types) >= 2:
+            last, first = self.types[-1], self.types[0]
+            self.cls[last] = type("Req" + last, (self.cls[first],), {"options": {}})
         for ty in init_defaults:
             self.cls[ty].handle(_tag_handler("d:" + ty))
         self.R = {}
